@@ -165,6 +165,27 @@ var families = map[string]script{
 		}
 		return b.String()
 	},
+	"shuffle": func(id int) string {
+		// the outcome of a shuffle is random; what it holds is not
+		l := col.List[int](lib.Notation()).MakeFromArray(intsFor(id, 60))
+		a := col.Array[int](lib.Notation()).MakeFromArray(intsFor(id+1, 60))
+		c := col.Catalog[int, int](lib.Notation()).Make()
+		for i, v := range intsFor(id+2, 20) {
+			c.SetValue(i, v)
+		}
+		g := intsFor(id+3, 80)
+		for r := 0; r < 6; r++ {
+			l.ShuffleValues()
+			a.ShuffleValues()
+			c.ShuffleValues()
+			age.Sorter[int]().Make().ShuffleValues(g)
+		}
+		l.SortValues()
+		a.SortValues()
+		c.SortValues()
+		sort.Ints(g)
+		return fmt.Sprint(l.AsArray(), a.AsArray(), c.GetKeys().AsArray(), g)
+	},
 	"iterate": func(id int) string {
 		l := col.List[int](lib.Notation()).MakeFromArray(intsFor(id, 15))
 		it := l.GetIterator()
@@ -204,7 +225,7 @@ var familyNames = func() []string {
 
 // pairs of families that are candidates for hidden shared state
 var sharingCandidates = map[string]bool{"format-string": true, "format-notation": true, "sort-composite": true, "sort-int": true, "parse": true, "search-composite": true,
-	"set-algebra-composite": true, "compare-rank": true, "format-after-panic": true, "parse-after-reject": true, "rank-after-cycle": true}
+	"set-algebra-composite": true, "compare-rank": true, "format-after-panic": true, "parse-after-reject": true, "rank-after-cycle": true, "shuffle": true}
 
 type indepCase struct {
 	Goroutines []string `json:"goroutines"` // family per goroutine
